@@ -31,8 +31,31 @@ def obs_lattice(case):
         d = {"id": int(m.id), "s": int(m.mstart), "e": int(m.mend)}
         if d not in uniq:
             uniq.append(d)
-    return {"ms": uniq, "blanks": [i for i, c in enumerate(txt) if c.isspace()],
-            "seqs": [[{"id": int(m.id), "s": int(m.mstart), "e": int(m.mend)} for m in q] for q in seqs]}
+    out = {"ms": uniq, "blanks": [i for i, c in enumerate(txt) if c.isspace()],
+           "seqs": [[{"id": int(m.id), "s": int(m.mstart), "e": int(m.mend)} for m in q] for q in seqs],
+           "filtered": 0, "admitted": [], "relnum": 1, "relden": 1}
+    if case.get("rel") and not case.get("raw") and len(seqs) <= 30 and len(ms) <= 9:
+        # which candidate sequences survive the relative_match_len filter: with no depth limit every admitted sequence is
+        # popped (as a production made of pattern matches only) - observed through the _match_rule seam
+        from datetime import datetime
+        num, den = case["rel"]
+        popped = []
+        orig = qa.CTP._match_rule
+
+        def spy(seq, rule):
+            if all(isinstance(x, qa.T.RegexMatch) for x in seq):
+                d = [{"id": int(m.id), "s": int(m.mstart), "e": int(m.mend)} for m in seq]
+                if d not in popped:
+                    popped.append(d)
+            return orig(seq, rule)
+        qa.CTP._match_rule = spy
+        try:
+            list(qa.CTP._ctparse(txt, datetime(2018, 3, 7, 12, 43), timeout=0, relative_match_len=num / den, max_stack_depth=0,
+                                 scorer=qa.DummyScorer()))
+        finally:
+            qa.CTP._match_rule = orig
+        out.update({"filtered": 1, "admitted": popped, "relnum": num, "relden": den})
+    return out
 
 
 def obs_embed(case):
@@ -44,8 +67,9 @@ def obs_embed(case):
     for m in qa.CTP._match_regex(case["text"], qa.REGEX):
         if m.mstart < lo - 1 or m.mend > hi + 1:
             return []
-    base, rb = e2e.parse_val(case["base"], ts, latent=latent)
-    val, r = e2e.parse_val(case["text"], ts, latent=latent)
+    kw = {"relative_match_len": case["rel"]} if case.get("rel") else {}
+    base, rb = e2e.parse_val(case["base"], ts, latent=latent, **kw)
+    val, r = e2e.parse_val(case["text"], ts, latent=latent, **kw)
     bs = be = s = e = -1
     if rb is not None and rb.resolution is not None:
         bs, be = int(rb.resolution.mstart), int(rb.resolution.mend)
@@ -110,6 +134,11 @@ def run(ctx):
             k = rnd.randrange(1, len(ws))
             lat.append({"text": " ".join(ws[:k] + ["#tag"] + ws[k:])})
             lat.append({"text": " ".join(ws[:k]) + "   " + " ".join(ws[k:]), "raw": True})
+    # the coverage filter under several relative_match_len values, on bare texts and behind inert words
+    for t, ts, full in exprs[::2 if ctx.quick else 1]:
+        for rel in ((1, 1), (19, 20), (4, 5), (1, 2)):
+            lat.append({"text": t, "rel": rel})
+            lat.append({"text": rnd.choice(words) + " " + rnd.choice(words) + " " + t, "rel": rel})
     lat = [c for c in lat if engine.text_size(c["text"])[1] <= 200]
     core.run_stage(ctx, "lattice", lat, obs_lattice, "LatticeTrace", sig_keys=(), nontrivial=lambda c: c["text"])
     cases = []
@@ -125,7 +154,14 @@ def run(ctx):
                     continue
                 cases.append({"text": text, "base": t, "ts": ts, "shift": shift, "latent": latent, "full": full and np_ == 0 and ns == 1,
                               "label": "prefix%d-suffix%d" % (min(np_, 1), min(ns, 1)), "form": "latent%d" % latent})
-    core.run_stage(ctx, "embeddings", cases, obs_embed, "VariantTrace", sig_keys=("label",), nontrivial=lambda c: (c["text"], c["latent"]))
+    # the same under relative_match_len < 1 (the coverage filter must not depend on where the expression starts)
+    extra = []
+    for c in cases:
+        if c["latent"] == 1 and (len(c["text"]) + len(extra)) % (5 if ctx.quick else 2) == 0:
+            for rel in (0.95, 0.8, 0.5):
+                extra.append(dict(c, rel=rel, label=c["label"] + "/rel<1", full=0))
+    cases += extra
+    core.run_stage(ctx, "embeddings", cases, obs_embed, "VariantTrace", sig_keys=("label",), nontrivial=lambda c: (c["text"], c["latent"], c.get("rel")))
 
 
 def replay(ctx, rp):
